@@ -121,7 +121,23 @@ var inserters = []string{"Put", "Add", "Put1"}
 const populated = 5 // elements of a populated instance: keys 1..5
 
 // newPopulated builds a fresh instance of the named type holding 5 elements.
-func newPopulated(name string) (interface{}, error) {
+func newPopulated(name string) (interface{}, error) { return newSized(name, populated) }
+
+// a batch argument (a slice of values, another collection to merge) comes in two sizes: a handful of
+// elements, and -- every fourth call -- more elements than the default table has buckets (101), all of
+// them fresh, so that ONE batch call takes the receiver through two re-hash thresholds (75, 152):
+// whatever a batch method does "once for the whole batch" depends on the batch's length
+const bigBatch = 160
+
+func batchLen(i int) int {
+	if i%4 == 0 {
+		return bigBatch
+	}
+	return 3
+}
+
+// newSized builds a fresh instance of the named type holding the elements 1..n.
+func newSized(name string, n int) (interface{}, error) {
 	mk := ctors[name]
 	if mk == nil {
 		return nil, fmt.Errorf("no constructor registered for table type %s", name)
@@ -138,7 +154,7 @@ func newPopulated(name string) (interface{}, error) {
 	if !ins.IsValid() {
 		return nil, fmt.Errorf("%s: no inserting method among %v", name, inserters)
 	}
-	for i := 1; i <= populated; i++ {
+	for i := 1; i <= n; i++ {
 		args, err := synthArgs(obj, name, ins.Type(), i)
 		if err != nil {
 			return nil, err
@@ -226,8 +242,15 @@ func synth(obj interface{}, tname string, pt reflect.Type, i int, peer ...interf
 			return out
 		}), nil
 	case reflect.Slice:
-		s := reflect.MakeSlice(pt, 0, 3)
-		for _, k := range []int{i, i + 1, 9} {
+		ks := []int{i, i + 1, 9}
+		if batchLen(i) > 3 { // fresh elements, more of them than the default table has buckets
+			ks = ks[:0]
+			for j := 0; j < bigBatch; j++ {
+				ks = append(ks, 1000+i*200+j)
+			}
+		}
+		s := reflect.MakeSlice(pt, 0, len(ks))
+		for _, k := range ks {
 			e, err := synth(obj, tname, pt.Elem(), k)
 			if err != nil {
 				return reflect.Value{}, err
@@ -257,7 +280,11 @@ func synth(obj interface{}, tname string, pt reflect.Type, i int, peer ...interf
 			if len(peer) > 0 && peer[0] != nil {
 				return reflect.ValueOf(peer[0]), nil
 			}
-			other, err := newPopulated(tname)
+			n := populated
+			if batchLen(i) > 3 {
+				n = bigBatch
+			}
+			other, err := newSized(tname, n)
 			if err != nil {
 				return reflect.Value{}, err
 			}
